@@ -15,6 +15,9 @@ const (
 	LLines           // every lexeme on its own line, keywords lower-case, CRLF every third break
 	LComments        // block and line comments between lexemes, tabs, keywords in mixed case
 	NLayouts
+	// LComments2 puts two comments (separated by white space only) into every gap; it is
+	// not part of the 0..NLayouts loop used by older checks
+	LComments2 = NLayouts
 )
 
 func mixedCase(s string) string {
@@ -69,6 +72,15 @@ func Render(toks []Tok, layout int) string {
 					sb.WriteString("\r\n")
 				} else {
 					sb.WriteString("\n  ")
+				}
+			case LComments2:
+				switch i % 3 {
+				case 0:
+					sb.WriteString(" /* a */ /* b */ ")
+				case 1:
+					sb.WriteString(" -- a\n  -- b\n")
+				default:
+					sb.WriteString(" /* a */\n\n-- b\n\t")
 				}
 			case LComments:
 				switch i % 4 {
